@@ -343,6 +343,14 @@ func checkC17Help(c *Ctx, n int) {
 				}
 			}
 		}
+		if g.chance(0.25) && cs.Build[0].Struct != nil {
+			// one very long option name: the description column lies far to the right
+			top, _ := topAndNested(cs.Build[0].Struct)
+			if len(top) > 0 {
+				f := top[c.Rng.Intn(len(top))]
+				f.Tag = tagReplace(f.Tag, "long", strings.Repeat("n", 50+c.Rng.Intn(45)))
+			}
+		}
 		g.addProgrammatic(cs)
 		real, _ := BuildReal(cs)
 		if real.dead {
@@ -439,6 +447,30 @@ func layoutOracle(c *Ctx, cr *CaseResult, help string, cols int) {
 			if first, _ := utf8.DecodeRuneInString(l[column:]); unicode.IsSpace(first) {
 				fail("continuation-lines-are-indented-to-the-description-column", "C17:continuation", fmt.Sprintf("a continuation line starts in column %d: %q", column+len(l[column:])-len(strings.TrimLeft(l[column:], " \t")), l), fmt.Sprintf("column %d", column))
 				return
+			}
+		}
+		// and not to less: the lines that follow a description's first line, up to the next row
+		inDesc := false
+		for _, l := range lines {
+			starts := false
+			for _, o := range vis {
+				if strings.Contains(o.Description, markerOf(o)) && strings.Contains(l, markerOf(o)) {
+					starts = true
+				}
+			}
+			lead := len(l) - len(strings.TrimLeft(l, " "))
+			switch {
+			case starts:
+				inDesc = true
+			case strings.TrimSpace(l) == "":
+			case inDesc && lead >= 11:
+				// (an option row has at most ten blanks before its dash, other rows two)
+				if lead != column {
+					fail("continuation-lines-are-indented-to-the-description-column", "C17:continuation", fmt.Sprintf("a continuation line starts in column %d: %q", lead, l), fmt.Sprintf("column %d", column))
+					return
+				}
+			default:
+				inDesc = false
 			}
 		}
 		c.Check("continuation-lines-are-indented-to-the-description-column", true, "", nil, "", "")
